@@ -419,6 +419,9 @@ pub fn cuts(n: usize) -> Vec<Option<usize>> {
         v.push(Some(256 + NUM_SPECIAL + k));
     }
     v.push(Some(256 + NUM_SPECIAL + n + 3));
+    // one below the smallest vocabulary (bytes + special tokens) and the "no limit" extreme
+    v.push(Some(256 + NUM_SPECIAL - 1));
+    v.push(Some(usize::MAX));
     v
 }
 
@@ -739,7 +742,7 @@ pub fn drive(id: &'static str, mut oracle: impl Oracle) -> ! {
     run.bounds.insert(
         "product_run".into(),
         json!({
-            "what": "max_vocab_size in {None, 0, 260+k for k in 0..=n, 260+n+3} x configs, all strings; full product for F1 tables with <= 2 entries, hand and trained tables; for F1 3-entry and F2 tables limit number j is combined with config j mod 3 only",
+            "what": "max_vocab_size in {None, 0, 260+k for k in 0..=n, 260+n+3, 259, usize::MAX} x configs, all strings; full product for F1 tables with <= 2 entries, hand and trained tables; for F1 3-entry and F2 tables limit number j is combined with config j mod 3 only",
             "configs": CONFIGS.iter().map(|(p, s, g)| json!({"prefix": p, "suffix": s, "use_graphemes": g})).collect::<Vec<_>>(),
             "max_symbols": sp.len_product,
             "strings": strs.count_upto[sp.len_product],
